@@ -83,7 +83,7 @@ func init() {
 
 var respHeaderLines = []string{
 	"Server: s/1\r\n", "Content-Type: text/x\r\n", "content-type: a/b; c=d\r\n", "Content-Encoding: gzip\r\n", "X-A: 1\r\n", "x-b:  two \r\n",
-	"Set-Cookie: a=b; Path=/\r\n", "Set-Cookie: c=d\r\n", "Connection: close\r\n", "Connection: keep-alive\r\n", "Connection: Keep-Alive, x\r\n",
+	"Set-Cookie: a=b; Path=/\r\n", "Set-Cookie: c=d\r\n", "Connection: close\r\n", "Connection: Close\r\n", "connection: CLOSE\r\n", "Connection: keep-alive\r\n", "Connection: Keep-Alive, x\r\n",
 	"Trailer: X-T1, X-T2\r\n", "X-Fold: a\r\n b\r\n", ": nokey\r\n", "Bad Line\r\n", "X-LF: v\n", "Date: Tue, 29 Sep 2026 00:00:00 GMT\r\n",
 }
 
